@@ -3,6 +3,6 @@ CONSTANTS
   TPI = 2
   MaxTicks = 100
   Mode = "asimpl"
-  Depth = 7
+  Depth = 6
 INVARIANT Emit
 CHECK_DEADLOCK FALSE
